@@ -110,6 +110,19 @@ def ep_boom(request, tok=None):
     raise ValueError('boom-%s-%s' % (tok, rid(request)))
 
 
+def _load_record(request):
+    # a helper two endpoints share: both fail at the SAME line with the SAME message
+    raise ValueError('record store unavailable')
+
+
+def ep_help_a(request, tok=None):
+    return _load_record(request)
+
+
+def ep_help_b(request, tok=None):
+    return _load_record(request)
+
+
 def ep_dir(request, tok=None):
     return Response('dir|%s|%s' % (tok, rid(request)), headers={'X-Sim-Route': 'dir'})
 
@@ -211,6 +224,8 @@ def build(cfg):
         ('/doc', ep_doc_v2),
         ('/doc', ep_doc),
         ('/boom', ep_boom),
+        ('/helpa', ep_help_a),
+        ('/helpb', ep_help_b),
         ('/go', Redirector('/hi/there', code=302)),
         Route('/cart', ep_cart, middlewares=[cart_mw]),
         Route('/keep', ep_keep, middlewares=[cart_mw]),
